@@ -4,10 +4,11 @@ import (
 	"fmt"
 	"go/types"
 	"math"
-	"net"
 	"math/big"
+	"net"
 	"runtime"
 	"strings"
+	"unsafe"
 
 	"golang.org/x/tools/go/ssa"
 )
@@ -194,6 +195,10 @@ func (eng *Engine) registerIntrinsics() {
 		e.abort("ok", "path stopped by the harness")
 		return nil
 	})
+	vp("ConcreteRandom", func(e *Exec, fr *frame, fn *ssa.Function, args []Value) Value {
+		e.local["randconcrete"] = args[0].(*Term).BoolVal()
+		return nil
+	})
 	vp("Symbolic", func(e *Exec, fr *frame, fn *ssa.Function, args []Value) Value {
 		return mkBool(e.eng.conf.Concrete == nil)
 	})
@@ -244,6 +249,55 @@ func (eng *Engine) registerIntrinsics() {
 			v[i] = byteConsts[0]
 		}
 		return Slice{v: v}
+	}
+	// FIPS 140 mode is off (GODEBUG fips140 unset): the switches read runtime/godebug state
+	for _, name := range []string{"crypto/fips140.Enforced", "crypto/fips140.Enabled", "crypto/internal/fips140only.Enforced"} {
+		in[name] = func(e *Exec, fr *frame, fn *ssa.Function, args []Value) Value { return globalFalse }
+	}
+	// crypto/internal/fips140/alias: overlap tests on the backing arrays of two byte slices (the engine's
+	// slices share Go backing arrays exactly as the program's do)
+	anyOverlap := func(x, y Slice) bool {
+		if len(x.v) == 0 || len(y.v) == 0 {
+			return false
+		}
+		x0, x1 := uintptr(unsafe.Pointer(&x.v[0])), uintptr(unsafe.Pointer(&x.v[len(x.v)-1]))
+		y0, y1 := uintptr(unsafe.Pointer(&y.v[0])), uintptr(unsafe.Pointer(&y.v[len(y.v)-1]))
+		return x0 <= y1 && y0 <= x1
+	}
+	in["crypto/internal/fips140/alias.AnyOverlap"] = func(e *Exec, fr *frame, fn *ssa.Function, args []Value) Value {
+		return mkBool(anyOverlap(args[0].(Slice), args[1].(Slice)))
+	}
+	in["crypto/internal/fips140/alias.InexactOverlap"] = func(e *Exec, fr *frame, fn *ssa.Function, args []Value) Value {
+		x, y := args[0].(Slice), args[1].(Slice)
+		if len(x.v) == 0 || len(y.v) == 0 || &x.v[0] == &y.v[0] {
+			return globalFalse
+		}
+		return mkBool(anyOverlap(x, y))
+	}
+	in["crypto/internal/fips140/subtle.xorBytes"] = func(e *Exec, fr *frame, fn *ssa.Function, args []Value) Value {
+		// xorBytes(dst, a, b *byte, n int): the pointers address elements of []Value backing arrays
+		n := int(e.concretize(fr, args[3].(*Term), "xorBytes length"))
+		if n <= 0 {
+			return nil
+		}
+		pd, pa, pb := args[0].(Ptr), args[1].(Ptr), args[2].(Ptr)
+		if pd.p == nil || pa.p == nil || pb.p == nil || pd.ro {
+			e.unsupported(fr, "xorBytes on nil or read-only memory")
+		}
+		dst, a, b := unsafe.Slice(pd.p, n), unsafe.Slice(pa.p, n), unsafe.Slice(pb.p, n)
+		for i := 0; i < n; i++ {
+			dst[i] = e.ctx.BinBV(OpBXor, a[i].(*Term), b[i].(*Term))
+		}
+		return nil
+	}
+	// assembly kernels with a generic Go twin in the same package
+	for from, to := range map[string][2]string{
+		"crypto/md5.block": {"crypto/md5", "blockGeneric"},
+	} {
+		to := to
+		in[from] = func(e *Exec, fr *frame, fn *ssa.Function, args []Value) Value {
+			return e.callSSA(fr, e.eng.stdFunc(to[0], to[1]), args, nil)
+		}
 	}
 	// bytealg and friends: pure-Go replacements from the rt support package (interpreted)
 	for from, to := range map[string]string{
@@ -388,6 +442,22 @@ func (eng *Engine) registerIntrinsics() {
 			b.v[i] = byteConsts[byte(ctr*73+11)]
 		}
 		e.local["randctr"] = ctr
+		return Tuple{mkConst(64, uint64(len(b.v))), Iface{}}
+	}
+	in["(crypto/internal/rand.reader).Read"] = func(e *Exec, fr *frame, fn *ssa.Function, args []Value) Value {
+		// rand.Reader (IVs, salts): arbitrary bytes = fresh solver variables, not recorded as draws
+		// (the native replay uses the real generator)
+		b := args[1].(Slice)
+		if conc, _ := e.local["randconcrete"].(bool); e.solver == nil || conc {
+			for i := range b.v {
+				b.v[i] = byteConsts[byte(i*73+11)]
+			}
+		} else {
+			for i := range b.v {
+				b.v[i] = e.ctx.Var(fmt.Sprintf("rnd!%d", e.nextVar), BV(8))
+				e.nextVar++
+			}
+		}
 		return Tuple{mkConst(64, uint64(len(b.v))), Iface{}}
 	}
 	in["maps.clone"] = func(e *Exec, fr *frame, fn *ssa.Function, args []Value) Value {
